@@ -82,7 +82,7 @@ def lemma_linear(ca, a, b):
 
 
 def kargs(kname, cells, nd, par):
-    a = {"y": cells, "nodata": z3.ToReal(nd), "lmda": par["lam"], "p": par["p"], "llas": par["llas"], "robust": False}
+    a = {"y": cells, "nodata": z3.ToReal(nd), "lmda": par["lam"], "p": par["p"], "llas": par["llas"], "robust": par.get("robust", False)}
     return a
 
 
@@ -95,12 +95,13 @@ def w_l2(w, cfg):
     nd, c, a, b = z3.Int("nd"), z3.Int("c"), z3.Int("a"), z3.Int("b")
     lam, p = z3.Real("lam"), z3.Real("p")
     llas, gf, (l0, step) = S.grid_terms(cfg.get("grid", 3))
-    par = {"lam": lam, "p": p, "llas": llas}
+    robust = cfg.get("robust", False)
+    par = {"lam": lam, "p": p, "llas": llas, "robust": robust}
     facts = px.facts(nd) + gf + [lam > 0, p > 0, p < 1, c >= -5000, c <= 5000]
     cellsA = px.cells(nd)
     if rel == "offset":
         ndB = nd + c
-        cellsB = [z3.ToReal(x + c) if v else z3.ToReal(ndB) for x, v in zip(px.xs, px.valid)]
+        cellsB = [(z3.ToReal(x) + z3.ToReal(c) if robust else z3.ToReal(x + c)) if v else z3.ToReal(ndB) for x, v in zip(px.xs, px.valid)]
         facts += [x + c != ndB for x, v in zip(px.xs, px.valid) if v]
     elif rel == "reversal":
         ndB = nd
@@ -114,33 +115,49 @@ def w_l2(w, cfg):
     rA = S.call_kernel(it, State(), kname, kargs(kname, cellsA, nd, par))
     lem = []
     if cellsB is not None:
-        S.abstract_ws2d(it, recB)
+        # robust GCV: the offset lemma is applied as a rewrite at every call of the second run (abstract_ws2d(shift=c))
+        S.abstract_ws2d(it, recB, shift=z3.ToReal(c) if robust else None)
+        it.A.factor_shift = z3.ToReal(c) if robust else None
         rB = S.call_kernel(it, State(), kname, kargs(kname, cellsB, ndB, par))
+        it.A.factor_shift = None
         if len(recA) != len(recB):
             raise Unsupported("the two runs made different numbers of ws2d calls")
-        for ca, cb in zip(recA, recB):
+        for ca, cb in ([] if robust else zip(recA, recB)):
             lem.append(lemma_offset(ca, cb, z3.ToReal(c)) if rel == "offset" else lemma_reversal(ca, cb))
     else:
         for ca in recA:
             lem.append(lemma_linear(ca, z3.ToReal(a), z3.ToReal(b)))
     w.res.encoded.update(it.encoded)
     assume = facts + it.cast_assumptions
-    lemmas = list(it.A.lemmas) + lem
+    # robust pairs: where the two runs built the same terms the claims need no ground lemma about the uninterpreted products
+    # (unsat without them is unsat with them); they are only a burden for the arithmetic solver
+    lemmas = [] if robust else list(it.A.lemmas) + lem
 
     def conc(m):
         return {"kind": "l2", "kernel": kname, "relation": rel, "data": [C.model_value(m, x) if v else None for x, v in zip(px.xs, px.valid)],
                 "nodata": C.model_value(m, nd), "c": C.model_value(m, c), "a": C.model_value(m, a), "b": C.model_value(m, b),
                 "lam": C.model_value(m, lam), "p": C.model_value(m, p), "l0": C.model_value(m, l0), "lstep": C.model_value(m, step),
-                "grid": cfg.get("grid", 3)}
-    tag = f"{kname}.{rel}"
+                "grid": cfg.get("grid", 3), "robust": robust}
+    tag = f"{kname}{'[robust]' if robust else ''}.{rel}"
     to = min(w.timeout_ms, 30000)
+    wb = rf = None
+    if robust:
+        to, rf = 5000, 10000     # these pairs fold or decide in < 1 s when they hold; a fresh-context retry absorbs solver luck
+        # partial assignments tried when a query is not decided (a model under them is a counterexample all the same): data
+        # with exact zeros / repeated values, which is where value-dependent masks differ between the two runs
+        pools = ([0, 40, -20, 0, 60, 10, 30, 0], [5, 0, 0, 25, -10, 15, 0, 35], [100, 100, 0, 100, 50, 0, 100, 75])
+        wb = [[x == pl[i] for i, x in enumerate(px.xs)] + [c == cc, nd == -3000] for pl in pools for cc in (7, -40)]
     if rel == "linear":
         for i in range(n):
             w.discharge(f"{tag}.line_kept[{i}]", assume, S.eq(rA["out"][i], a + b * i), lemmas=lemmas, concretize=conc,
                         sample=(i == 0), first_timeout_ms=to)
         return
+    verdicts = []
     if rA["lopt"] is not None:
-        w.discharge(f"{tag}.same_lambda", assume, S.eq(rA["lopt"], rB["lopt"]), lemmas=lemmas, concretize=conc, first_timeout_ms=to)
+        verdicts.append(w.discharge(f"{tag}.same_lambda", assume, S.eq(rA["lopt"], rB["lopt"]), lemmas=lemmas, concretize=conc,
+                                    first_timeout_ms=to, retry_fresh_ms=rf))
+        if robust and verdicts[-1] not in ("unsat", "sat", "folded"):
+            to = 3000    # siblings of an undecided claim get a short budget
     for i in range(n):
         if rel == "offset":
             # exact up to the half-even tie: rhe(z + c) and rhe(z) + c differ (by one) only if z sits exactly on .5 and c is odd
@@ -154,7 +171,18 @@ def w_l2(w, cfg):
             claim = z3.Or(d == 0, z3.And(tie, d >= -1, d <= 1))
         else:
             claim = S.eq(rB["out"][i], rA["out"][n - 1 - i])
-        w.discharge(f"{tag}.output[{i}]", assume, claim, lemmas=lemmas, concretize=conc, sample=(i == 0), first_timeout_ms=to)
+        verdicts.append(w.discharge(f"{tag}.output[{i}]", assume, claim, lemmas=lemmas, concretize=conc, sample=(i == 0),
+                                    first_timeout_ms=to, retry_fresh_ms=rf))
+        if robust and verdicts[-1] not in ("unsat", "sat", "folded"):
+            to = 3000
+    if wb and any(v not in ("unsat", "sat", "folded") for v in verdicts):
+        # the pair could not be decided: the two runs no longer build the same terms. Hand the replayer inputs that satisfy the
+        # assumptions (one per witness assignment); only a deviation of the real kernel is reported.
+        for wbs in wb:
+            v0, m0, _ = C.check_sat(list(assume) + list(wbs), 10000)
+            if v0 == "sat":
+                w.res.candidates.append({"obligation": f"{tag}[undecided pair; input from a model of the assumptions]", "config": w.config,
+                                         "known": None, "input": C.jsonable(conc(m0))})
     w.vacuity(f"{tag}.assumptions", facts)
 
 
@@ -182,6 +210,9 @@ def configs(tier):
             nn = n + 1 if kname == "ws2dwcv" else n
             for valid in S.gap_patterns(nn, max(minv, nn - 2)):
                 cf.append({"kind": "l2", "kernel": kname, "valid": valid, "relation": "offset", "grid": 2 if kname == "ws2dwcv" else 3})
+        for valid in S.gap_patterns(n + 1, max(5, n - (0 if tier == "quick" else 1))):
+            # robust GCV (4 reweighting passes): offset pairs with ws2d's commutation applied as a rewrite
+            cf.append({"kind": "l2", "kernel": "ws2dwcv", "valid": valid, "relation": "offset", "grid": 2, "robust": True})
         for kname in REVERSIBLE:
             for valid in S.gap_patterns(n, n - 1 if kname in ("ws2dpgu", "ws2doptvp") else n - 2):
                 cf.append({"kind": "l2", "kernel": kname, "valid": valid, "relation": "reversal", "grid": 3})
@@ -203,10 +234,14 @@ def main(tier, seed, nproc=None):
     chk.assumptions = ["L2 uses the three ws2d facts for every lambda > 0 and every non-negative weight vector, although L1 establishes them on a grid",
                        "valid cells integers, |x| + |c| <= 10000; floats exact reals (so rounding ties only arise exactly: rhe(z + c) = rhe(z) + c)",
                        "offset commutation of whole asymmetric kernels (pgu, optvp, optvplc, wcvp) is NOT claimed: their reweighting starts from "
-                       "the zero curve, which is not offset-invariant (DESIGN C06); robust GCV not encoded here",
+                       "the zero curve, which is not offset-invariant (DESIGN C06)",
+                       "robust GCV (ws2dwcv, 4 reweighting passes): offset pairs with ws2d's commutation applied as a rewrite at every call "
+                       "of the second run and np.median uninterpreted; reversal of the robust scheme is not claimed (median as an "
+                       "uninterpreted function of the ordered vector)",
                        "linear clause for the V-curve kernels is outside: in exact arithmetic log(fit) is undefined on an exact fit"]
     chk.bounds = {"L1": f"n = 4..{6 if tier == 'quick' else 8}, C01's weight vectors, lambda in {[str(x) for x in L1_LAMBDAS]}, all y / c / a / b",
-                  "L2": "n = 5 (6 for GCV) quick, +1 thorough; gap patterns with <= 2 gaps; symbolic lambda, p, grid (2-3 entries)"}
+                  "L2": "n = 5 (6 for GCV) quick, +1 thorough; gap patterns with <= 2 gaps; symbolic lambda, p, grid (2-3 entries); "
+                        "robust GCV offset pairs: n = 6 (7), <= 1 (2) gaps"}
     chk.outside = ["series longer than the bound", "float rounding ties / criterion ties", "offset commutation of asymmetric kernels beyond ws2d's own commutation"]
     from . import C02
     C02.validate(chk, seed)
